@@ -47,6 +47,8 @@ def new_module(rng, name, earlier):
         'funcs': ['f%d_%s' % (i, s) for i in range(rng.choice((0, 1, 2)))],
         'insts': ['i%d_%s' % (i, s) for i in range(rng.choice((0, 1, 1)))],
         'multis': ['m%d_%s' % (i, s) for i in range(rng.choice((0, 0, 1)))],
+        # a pair of functions that call each other (evaluation cycles through a multiply-bound name)
+        'cyc': ['g0_' + s, 'g1_' + s] if rng.random() < 0.4 else [],
     }
     mod = {'name': name, 'version': 0, 'iface': iface, 'items': []}
     return fill_module(rng, mod, earlier)
@@ -97,6 +99,10 @@ def fill_module(rng, mod, earlier):
     if rng.random() < 0.25:
         # optional dependency that may or may not exist (created later in C09 histories)
         items.append(['tryimport', 'zqlate_' + s])
+    pkgs = [m['name'] for m in earlier if m.get('init')]
+    if pkgs and rng.random() < 0.25:
+        # optional sub-module of an existing package, imported as an attribute of the package
+        items.append(['tryfrom', rng.choice(pkgs), 'zqlsub_' + s])
     classes_here = []
     for i, k in enumerate(mod['iface']['classes']):
         bases = []
@@ -105,9 +111,26 @@ def fill_module(rng, mod, earlier):
             bases.append(rng.choice(pool))
         cattrs = ['ca_%s_%d_%d' % (tag, i, j) for j in range(rng.choice((1, 2)))]
         methods = []
+        all_ctors = list(mod['iface']['classes']) + [e for e, kind in avail if kind == 'class']
         for j in range(rng.choice((1, 1, 2))):
-            sattrs = ['sa_%s_%d_%d%d' % (tag, i, j, n) for n in range(rng.choice((0, 1, 2)))]
+            sattrs = []
+            for n in range(rng.choice((0, 1, 2))):
+                a = 'sa_%s_%d_%d%d' % (tag, i, j, n)
+                x = rng.random()
+                if x < 0.25:
+                    sattrs.append([a, rng.choice(all_ctors) + '()'])       # instance of (maybe) another class
+                elif x < 0.35 and mod['iface'].get('cyc'):
+                    sattrs.append([a, rng.choice(mod['iface']['cyc']) + '()'])
+                else:
+                    sattrs.append(a)
             methods.append(['me_%s_%d_%d' % (s, i, j), sattrs])
+        if rng.random() < 0.6:
+            # chains and cycles between classes: K0().nxt() is a K1, K1().nxt() is a K0 ...
+            methods.append(['nxt', [], rng.choice(all_ctors) + '()'])
+        # every class also has an attribute and a method under a name shared by all classes, so that "which
+        # alternative answers" is observable when a name may be an instance of several classes
+        cattrs.append('shared')
+        methods.append(['common', []])
         items.append(['class', k, bases, cattrs, methods])
         classes_here.append(k)
     ctor_pool = classes_here + [e for e, kind in avail if kind == 'class']
@@ -120,6 +143,11 @@ def fill_module(rng, mod, earlier):
         else:
             ret = repr('s_%s' % tag)
         items.append(['func', f, ret])
+    cyc = mod['iface'].get('cyc') or []
+    for i, f in enumerate(cyc):
+        other = cyc[(i + 1) % len(cyc)]
+        base = (rng.choice(ctor_pool) + '()') if ctor_pool else repr('c_%s' % tag)
+        items.append(['cfunc', f, other, base])
     funcs_here = list(mod['iface']['funcs'])
     for i, n in enumerate(mod['iface']['insts']):
         if funcs_here and rng.random() < 0.4:
@@ -162,15 +190,32 @@ def render(mod):
             out.append('    import %s' % it[1])
             out.append('except ImportError:')
             out.append('    %s = None' % it[1])
+        elif k == 'tryfrom':
+            out.append('try:')
+            out.append('    from %s import %s' % (it[1], it[2]))
+            out.append('except ImportError:')
+            out.append('    %s = None' % it[2])
         elif k == 'class':
             out.append('class %s(%s):' % (it[1], ', '.join(it[2])) if it[2] else 'class %s(object):' % it[1])
             for a in it[3]:
-                out.append('    %s = %r' % (a, a))
-            for mname, sattrs in it[4]:
+                out.append('    %s = %r' % (a, a if a != 'shared' else 'shared by ' + it[1]))
+            for meth in it[4]:
+                mname, sattrs = meth[0], meth[1]
                 out.append('    def %s(self):' % mname)
                 for a in sattrs:
-                    out.append('        self.%s = %r' % (a, a))
-                out.append('        return self')
+                    if isinstance(a, list):
+                        out.append('        self.%s = %s' % (a[0], a[1]))
+                    else:
+                        out.append('        self.%s = %r' % (a, a))
+                out.append('        return %s' % (meth[2] if len(meth) > 2 else 'self'))
+            out.append('')
+        elif k == 'cfunc':
+            out.append("def %s(s=''):" % it[1])
+            out.append('    if s:')
+            out.append('        r = %s(s[1:])' % it[2])
+            out.append('    else:')
+            out.append('        r = %s' % it[3])
+            out.append('    return r')
             out.append('')
         elif k == 'func':
             out.append('def %s():' % it[1])
@@ -239,7 +284,9 @@ def origins(spec):
                 o[it[2] or it[1].partition('.')[0]] = it[1]
             elif k == 'tryimport':
                 o[it[1]] = it[1]
-            elif k in ('class', 'func', 'assign', 'multi'):
+            elif k == 'tryfrom':
+                o[it[2]] = it[1] + '.' + it[2]
+            elif k in ('class', 'func', 'cfunc', 'assign', 'multi'):
                 o[it[1]] = m['name']
         out[m['name']] = o
     return out
@@ -264,6 +311,8 @@ def exports(spec):
                 add(it[2] or it[1].partition('.')[0], 'module')
             elif k == 'tryimport':
                 add(it[1], 'module')
+            elif k == 'tryfrom':
+                add(it[2], 'module')
             elif k == 'from':
                 tgt = it[1]
                 if tgt.startswith('.'):
@@ -276,7 +325,7 @@ def exports(spec):
                         add(n, kind)
             elif k == 'class':
                 add(it[1], 'class')
-            elif k == 'func':
+            elif k in ('func', 'cfunc'):
                 add(it[1], 'func')
             elif k == 'assign':
                 add(it[1], 'inst' if it[2].endswith('()') else 'var')
@@ -354,8 +403,10 @@ def gen_request(rng, spec, kinds=('assist', 'location', 'lint'), uid=None, targe
         modref = None
 
     if kind == 'assist':
-        shape = rng.choice(('attr', 'attr', 'call', 'module', 'name', 'import', 'inherit', 'deep'))
-        if shape == 'module' and modref:
+        shape = rng.choice(('attr', 'attr', 'call', 'module', 'name', 'import', 'inherit', 'deep', 'chain', 'chain'))
+        if shape == 'chain' and nkind in ('class', 'func', 'inst', 'multi'):
+            tail = ref + ('()' if nkind in ('class', 'func') else '') + '.nxt()' * rng.choice((1, 2, 3)) + '.'
+        elif shape == 'module' and modref:
             tail = modref + '.'
         elif shape == 'call' and nkind in ('class', 'func'):
             tail = ref + '().'
@@ -379,8 +430,15 @@ def gen_request(rng, spec, kinds=('assist', 'location', 'lint'), uid=None, targe
         pos = _pos_after(source)
         source += '\n'
     elif kind == 'location':
-        shape = rng.choice(('ref', 'ref', 'attr', 'import'))
-        if shape == 'import':
+        shape = rng.choice(('ref', 'ref', 'attr', 'import', 'chain'))
+        if shape == 'chain' and nkind in ('class', 'func', 'inst', 'multi'):
+            attr = rng.choice(('shared', 'common', 'nxt'))
+            tail = 'zr = ' + ref + ('()' if nkind in ('class', 'func') else '') + '.nxt()' * rng.choice((0, 1, 2)) + '.' + attr
+            source = '\n'.join(head + [tail])
+            pos = _pos_after(source)
+            pos[1] -= rng.randrange(0, len(attr))
+            source += '\nzs = zr\n'
+        elif shape == 'import':
             tail = 'from %s import %s' % (mname, name)
             head = head[:1] if uid else []
             source = '\n'.join(head + [tail])
@@ -433,3 +491,23 @@ def mutate_module(rng, spec, idx):
         nm['items'] = items
         return nm
     return fill_module(rng, m, mods[:idx])
+
+
+def cycle_requests(rng, spec):
+    """Requests aimed at the evaluation cycles of a project: both functions of every mutually recursive pair,
+    and nxt() chains starting at every class - the places where a memo filled during a cycle would show."""
+    out = []
+    for m in spec['modules']:
+        mn = m['name']
+        for g in m['iface'].get('cyc') or []:
+            src = 'import %s\nzr = %s.%s().\n' % (mn, mn, g)
+            out.append({'kind': 'assist', 'source': src, 'position': [2, len(src.split('\n')[1])], 'file': 'zqmain.py'})
+            src = 'from %s import %s\nzr = %s().shared\n' % (mn, g, g)
+            out.append({'kind': 'location', 'source': src, 'position': [2, len(src.split('\n')[1]) - 2], 'file': 'zqmain.py'})
+        for it in m['items']:
+            if it[0] == 'class' and any(me[0] == 'nxt' for me in it[4]):
+                n = rng.choice((1, 2, 3))
+                src = 'import %s\nzr = %s.%s()%s.\n' % (mn, mn, it[1], '.nxt()' * n)
+                out.append({'kind': 'assist', 'source': src, 'position': [2, len(src.split('\n')[1])], 'file': 'zqmain.py'})
+    rng.shuffle(out)
+    return out
